@@ -272,7 +272,14 @@ func c07Exec(op string) (string, *Violation) {
 		}
 		// goroutines
 		if how != "close" {
-			s.Close()
+			// Close after a cancellation has to come back too (it waits for the pipeline's goroutines)
+			closed := make(chan struct{})
+			go func() { s.Close(); close(closed) }()
+			select {
+			case <-closed:
+			case <-time.After(15 * time.Second):
+				return "HANG", &Violation{Signature: "scan-close-hang-after-" + how, Text: fmt.Sprintf("Close after %s (after %d objects of a %d block file, %d decoders) does not return within 15s: a goroutine of the pipeline never ends", how, r.got, blocks, procs)}
+			}
 		}
 		deadline := time.Now().Add(3 * time.Second)
 		for osmpbfGoroutines() > before && time.Now().Before(deadline) {
@@ -384,6 +391,12 @@ func c07Gen(r *Rng, tier string, emit func(string)) {
 	for i := 0; i < m; i++ {
 		blocks := 150
 		k := r.Intn(90)
+		if i%4 == 1 {
+			// a file the pipeline can swallow whole: at the stop the end-of-input is already inside the pipeline,
+			// queued behind blocks nobody will take any more
+			blocks = 12 + r.Intn(14)
+			k = r.Intn(4)
+		}
 		if r.Chance(10) {
 			k = blocks*3 + r.Intn(3) // up to and beyond the end
 		}
